@@ -239,6 +239,12 @@ def hchunk(stream, seed, idx, n):
         h = ex.stats.setdefault('nested_forms', {})
         emb = set(n_['id'] for n_ in case['top'] if n_['embed'])
         for v in vs[1:]:
+            if v.get('enum_tree'):
+                h['tree:enum-classes'] = h.get('tree:enum-classes', 0) + 1
+                for r in v['tnames']:
+                    for x in r:
+                        h['endpoint:' + x] = h.get('endpoint:' + x, 0) + 1
+                continue
             for k_, p in v['plan']:
                 keys = ['rep:' + p['rep'], 'key:' + p['key'], 'deferred' if p['defer_from'] is not None else 'inline']
                 if k_ in emb:
@@ -445,6 +451,8 @@ STREAMS = {
     # add-then-remove detours on hierarchical machines
     'nested-remove': lambda: hsm13.HKnobs(detours=True, max_transitions=4),
     'nested-names': None,
+    # state names repeated across levels; the tree as nested Enum classes; transitions by member or joined name
+    'nested-enum': lambda: hsm13.HKnobs(enum=True, max_transitions=5),
 }
 BUDGET = {   # stream -> (quick: chunks, per chunk), (thorough: chunks, per chunk)
     'flat': ((16, 200), (64, 600)),
@@ -452,6 +460,7 @@ BUDGET = {   # stream -> (quick: chunks, per chunk), (thorough: chunks, per chun
     'nested': ((16, 80), (64, 250)),
     'nested-remove': ((4, 15), (8, 60)),
     'nested-names': ((4, 40), (8, 200)),
+    'nested-enum': ((8, 40), (32, 150)),
 }
 
 
@@ -597,7 +606,7 @@ class C13(runner.Check):
             'one model per machine; callbacks by reference are bound to it; a condition given as a property receives '
             'no arguments, the recorder takes the tag of the API call in progress (scripts issue no re-entrant calls)',
             'representation choices and hierarchical machines are decided by the differential only; nested stream: '
-            'auto_transitions off, no parallel states, no nested Enums, children deferred to joined names only as a '
+            'auto_transitions off, no parallel states, nested Enums only in the nested-enum stream (whole tree as Enum classes, no embedded machine there), children deferred to joined names only as a '
             'suffix of their siblings (sibling order kept), argument passing on nested machines is left to C03',
             'detour transitions point to a state that is never registered and are removed before any event is triggered',
         ]
